@@ -112,7 +112,7 @@ ENVS_QUICK = [
 
 def gen_cases(rng, tier, big=False):
     cases = []
-    per_pipeline = 3 if tier == "quick" else 12
+    per_pipeline = 3 if tier == "quick" else 30
     for pname, pipe in PIPELINES.items():
         for k in range(per_pipeline):
             multiscale = "multiscale" in pipe
@@ -123,7 +123,7 @@ def gen_cases(rng, tier, big=False):
                 rows, cols = rng.randrange(22, 31), rng.randrange(26, 37)
             else:
                 rows, cols = rng.randrange(11, 27), rng.randrange(16, 35)
-            if tier == "thorough" and k == per_pipeline - 1 and not multiscale:
+            if tier == "thorough" and k % 10 == 9 and not multiscale:
                 rows, cols = rng.randrange(101, 112), rng.randrange(101, 121)    # straddles the 100-pixel blocks
             dmin = rng.randrange(-4, 0)
             dmax = dmin + rng.randrange(2, 6)
